@@ -367,6 +367,13 @@ func (g *smGen) emitSenderTrace() {
 	for k, n := range spy.Calls {
 		g.dist["handler-calls-"+k] += n
 	}
+	// C20_cut_once_per_window excludes OnRetransmissionTimeout between the two reductions because no
+	// production code calls it (OnConnectionMigration is not even part of the SendAlgorithm interface):
+	// checked here on every history, not only by grep.
+	if n := spy.Calls["OnRetransmissionTimeout"]; n > 0 && !g.reported["info-rto"] {
+		g.reported["info-rto"] = true
+		fmt.Fprintf(g.w, "INFO\tsentPacketHandler called OnRetransmissionTimeout %d times: the no-reset hypothesis of C20_cut_once_per_window is no longer guaranteed by the call sites\n", n)
+	}
 	g.dist["sender-trace-steps"] += len(spy.Steps)
 }
 
